@@ -81,6 +81,15 @@ class C29(core.Check):
             # temporary -> persistent
             cs.append(("mine", "shared", True, False, filed, ext, "text", shared, [("reopen", True, False, False, False, None), ("close", True)]))
             cs.append(("mine", "shared", True, False, filed, ext, "text", shared, [("reopen", False, True, False, False, "db"), ("close", True)]))
+        for temp, cl in ((True, False), (False, True), (True, True), (False, False)):
+            for filed, ext in ((False, False), (True, False), (False, True)):
+                # openFiler context: the closing clear happens however the block leaves the filer
+                for steps in ([], [("close", False)], [("close", False), ("reopen", False, True, False, None, None), ("close", False)], [("doer",)],
+                              [("reopen", True, False, False, None, None)], [("close", True)]):
+                    cs.append(("test", "", temp, False, filed, ext, "text", [], steps, ("ctx", cl)))
+        for nm, bs in (("~", ""), ("~/x", ""), ("x", "~"), ("x", "~/b"), ("~nosuchuser9", ""), ("a/~", "b"), ("~", "~")):
+            for temp, filed in ((False, False), (False, True), (True, False)):
+                cs.append((nm, bs, temp, False, filed, False, "text", [], C))          # '~' is an ordinary segment below head
         sib = [("hio", "d"), ("hio/clean", "d"), ("hio/clean/b", "d"), ("hio/clean/b/keep", "f"), ("hio/clean/b/sib", "d"), ("hio/clean/b/sib/keep", "f")]
         for filed, ext in ((False, False), (True, False), (False, True), (True, True)):
             # the clean path is visited twice: what is there is removed, nothing next to it
@@ -125,10 +134,15 @@ class C29(core.Check):
                 open(full, "w").close()
 
     def request(self, case):
-        name, base, temp, clean, filed, ext, fext, pre, steps = case
+        name, base, temp, clean, filed, ext, fext, pre, steps = case[:9]
         return ("filer", _b(name), _b(base), bool(temp), bool(clean), bool(filed), bool(ext), _b(fext),
                 P.HEADSEGS, P.TEMPSEGS, self._initial(case),
-                tuple(self._wire_step(s) for s in steps))
+                tuple(self._wire_step(s) for s in steps),
+                "ctor" if self._entry(case) is None else ("ctx", bool(self._entry(case)[1])))
+
+    @staticmethod
+    def _entry(case):
+        return case[9] if len(case) > 9 else None
 
     @staticmethod
     def _norm(step):
@@ -142,13 +156,15 @@ class C29(core.Check):
         st = cls._norm(step)
         if st[0] == "reopen":
             return ("reopen", bool(st[1]), bool(st[2]), bool(st[3]), None if st[4] is None else bool(st[4]), None if st[5] is None else _b(st[5]))
+        if st[0] == "doer":
+            return ("doer",)
         return ("close", bool(st[1]))
 
     # ---------------------------------------------------------------- implementation
     def run_impl(self, case):
-        from hio.base import filing
+        from hio.base import filing, doing
         from hio import hioing
-        name, base, temp, clean, filed, ext, fext, pre, steps = case
+        name, base, temp, clean, filed, ext, fext, pre, steps = case[:9]
         sb = P.Sandbox()
         filer = None
         try:
@@ -175,15 +191,46 @@ class C29(core.Check):
             def make():
                 nonlocal filer
                 filer = cls(name=name, base=base, temp=temp, headDirPath=sb.head, clean=clean, filed=filed, extensioned=ext, fext=fext, reopen=True)
-            if stage(make):
+
+            def run_steps():
                 for s in steps:
                     s = self._norm(s)
                     if s[0] == "reopen":
                         ok = stage(lambda: filer.reopen(clear=s[1], reuse=s[2], clean=s[3], temp=s[4], fext=s[5]))
+                    elif s[0] == "doer":
+                        def run_doer():
+                            doist = doing.Doist(limit=0.0625, tock=0.03125, real=False)
+                            doist.do(doers=[filing.FilerDoer(filer=filer)])
+                        ok = stage(run_doer)
                     else:
                         ok = stage(lambda: filer.close(clear=s[1]))
                     if not ok:
                         break
+
+            entry = self._entry(case)
+            old_home = os.environ.get("HOME")
+            os.environ["HOME"] = sb.home
+            try:
+                if entry is None:
+                    if stage(make):
+                        run_steps()
+                else:
+                    opened = []
+
+                    def enter():
+                        nonlocal filer
+                        cm = filing.openFiler(cls=cls, name=name, base=base, temp=temp, headDirPath=sb.head, clean=clean, filed=filed,
+                                              extensioned=ext, fext=fext, reopen=True, clear=entry[1])
+                        filer = cm.__enter__()
+                        opened.append(cm)
+                    if stage(enter):
+                        run_steps()
+                        stage(lambda: opened[0].__exit__(None, None, None))
+            finally:
+                if old_home is None:
+                    os.environ.pop("HOME", None)
+                else:
+                    os.environ["HOME"] = old_home
             return tuple(out)
         finally:
             try:
@@ -196,7 +243,7 @@ class C29(core.Check):
     # ---------------------------------------------------------------- oracle: containment on the real snapshots
     def _stage_clauses(self, case, obs):
         """[(stage index, clause, temp setting in force before the stage, path before the stage)]"""
-        name, base, temp, clean, filed, ext, fext, pre, steps = case
+        name, base, temp, clean, filed, ext, fext, pre, steps = case[:9]
         out = []
         init = obs[0]
         prev = set(init)
@@ -218,7 +265,14 @@ class C29(core.Check):
             cur = set(snap)
             created = cur - prev
             deleted = prev - cur
-            step = None if i == 0 else self._norm(steps[i - 1])
+            ent = self._entry(case)
+            if i == 0:
+                step = None
+            elif ent is not None and i == len(obs) - 2:
+                # the last stage of an openFiler block (also after a step raised): the context manager's closing clear
+                step = ("close", bool(cur_temp or ent[1]))
+            else:
+                step = self._norm(steps[i - 1])
             old_temp = cur_temp
             new_temp = cur_temp
             if step is not None and step[0] == "reopen" and step[4] is not None and res[0] == "ok":
@@ -302,7 +356,7 @@ class C29(core.Check):
         return any(set(s) != set(obs[0]) for _, s in obs[1:])
 
     def features(self, case, obs):
-        name, base, temp, clean, filed, ext, fext, pre, steps = case
+        name, base, temp, clean, filed, ext, fext, pre, steps = case[:9]
         f = [f"flags:t{int(temp)}c{int(clean)}f{int(filed)}e{int(ext)}", f"init:{obs[1][0][0] if len(obs) > 1 else 'none'}" + (":" + obs[1][0][1] if len(obs) > 1 and obs[1][0][0] == "raise" else "")]
         segs = name.split("/") + (base.split("/") if base else [])
         if ".." in segs:
@@ -311,15 +365,25 @@ class C29(core.Check):
             f.append("has-dot-or-empty")
         if pre:
             f.append("pre-populated")
+        if "~" in name or "~" in base:
+            f.append("has-tilde")
+        f.append("entry:" + ("ctor" if self._entry(case) is None else "openFiler"))
         f.append(f"steps:{len(steps)}")
         for s in steps:
             s = self._norm(s)
-            f.append("step:" + s[0] + ("+clear" if s[1] else "") + ("+temp=" + str(s[4]) if s[0] == "reopen" and s[4] is not None else "")
+            f.append("step:" + s[0] + ("+clear" if len(s) > 1 and s[1] else "") + ("+temp=" + str(s[4]) if s[0] == "reopen" and s[4] is not None else "")
                      + ("+fext" if s[0] == "reopen" and s[5] is not None else ""))
         return f
 
     def shrink(self, case):
-        name, base, temp, clean, filed, ext, fext, pre, steps = case
+        extra = tuple(case[9:])
+        if extra and extra[0] is not None:
+            yield tuple(case[:9]) + (None,)
+        for c in self._shrink9(case):
+            yield tuple(c[:9]) + extra
+
+    def _shrink9(self, case):
+        name, base, temp, clean, filed, ext, fext, pre, steps = case[:9]
         for i in range(len(steps)):
             yield (name, base, temp, clean, filed, ext, fext, pre, steps[:i] + steps[i + 1:])
         for i in range(len(pre) - 1, -1, -1):
@@ -340,7 +404,8 @@ class C29(core.Check):
 
     def mutate(self, rng, case):
         out = list(self.shrink(case))
-        name, base, temp, clean, filed, ext, fext, pre, steps = case
+        name, base, temp, clean, filed, ext, fext, pre, steps = case[:9]
+        out.append(tuple(case[:9]) + (('ctx', True),))
         for t in (False, True):
             for fl in (False, True):
                 for e in (False, True):
